@@ -324,6 +324,7 @@ func describeSites(p *Prog, ss []Site) string {
 func c11FlagRules(r *Report) {
 	o := &order{r, r.P}
 	const rule = "flag-unreachable-on-failure"
+	r.Rule(rule, 3, "the success flag / installation of a compaction result is unreachable from the failure edge of the merge, and the goroutine bodies escalate a returned error")
 	if fn := r.NeedFunc(rule, "simpledb.executeCompaction"); fn != nil {
 		A := CallsIn(fn, Suffix("SSTableMerger.MergeCompact", "SSTableMerger.Merge"))
 		B := CallsIn(fn, Keys("simpledb.saveCompactionMetadata"))
